@@ -190,9 +190,40 @@ def library_sources(repo=None):
     return names
 
 
+_PRUNED = False
+
+
+def prune_cache(limit_mb=350):
+    """Keep the facts cache bounded: drop oldest files beyond the size limit."""
+    global _PRUNED
+    if _PRUNED or not os.path.isdir(CACHE):
+        return
+    _PRUNED = True
+    try:
+        ents = []
+        for fn in os.listdir(CACHE):
+            p = os.path.join(CACHE, fn)
+            st = os.stat(p)
+            ents.append((st.st_mtime, st.st_size, p))
+        ents.sort(reverse=True)
+        tot = 0
+        for mt, sz, p in ents:
+            tot += sz
+            if tot > limit_mb * 1024 * 1024:
+                os.remove(p)
+    except OSError:
+        pass
+
+
 def _run_unit(u):
-    os.makedirs(CACHE, exist_ok=True)
-    out = os.path.join(CACHE, u.key() + ".json")
+    if u.repo not in ("/repo",):
+        # scratch copies (self-tests): keep their facts inside the scratch tree
+        cdir = os.path.join(u.repo, ".pplv-cache")
+    else:
+        cdir = CACHE
+        prune_cache()
+    os.makedirs(cdir, exist_ok=True)
+    out = os.path.join(cdir, u.key() + ".json")
     if os.path.exists(out):
         return out
     if not os.path.exists(TOOL):
@@ -508,6 +539,9 @@ class Func:
             c = n.get("c", ())
             if op in ("[]", "*", "->", "++", "--", "=", "+=", "-=", "()") and c:
                 return self.root(c[0], depth + 1)
+            if op in ("+", "-") and c and (_is_alias_type(n.get("t", "")) or "iterator" in n.get("ccls", "")):
+                # iterator arithmetic: the result still points into the same container
+                return self.root(c[0], depth + 1)
             return ("temp",)
         if k == "mcall":
             rt = n.get("rt", "")
@@ -529,7 +563,13 @@ class Func:
             return ("unknown",)
         if k == "assign":
             return self.root(n["c"][0], depth + 1)
-        if k in ("construct", "new", "int", "bool", "str", "char", "float", "null", "binop"):
+        if k == "construct":
+            # copy of a proxy/iterator object keeps designating the same storage
+            c = n.get("c", ())
+            if len(c) == 1 and _is_alias_type(n.get("t", "")):
+                return self.root(c[0], depth + 1)
+            return ("temp",)
+        if k in ("new", "int", "bool", "str", "char", "float", "null", "binop"):
             return ("temp",)
         return ("unknown",)
 
@@ -645,6 +685,9 @@ def _is_alias_type(t):
     if t.endswith("&") or t.endswith("*") or t.endswith("* const"):
         return True
     if "iterator" in t or "Iterator" in t:
+        return True
+    if "reference" in t or "Pseudo_Row" in t:
+        # proxy/reference classes (OR_Matrix row_reference_type, ...)
         return True
     return False
 
